@@ -24,7 +24,10 @@ structure PathObs where
   nh : Addr
   flt : Bool
   stale : Bool
+  llgr : Bool      -- LLGR-stale (source marked, or LLGR_STALE community)
   lp : Nat
+  asl : Nat        -- AS_PATH length
+  org : Nat        -- ORIGIN
   eb : Bool
   cl : Nat
   rid : Nat
@@ -92,11 +95,14 @@ def refReplay : Refs → List (Bool × Addr) → Option Refs
 def eligible (unr : List Addr) (ps : List PathObs) : List PathObs :=
   ps.filter (fun p => !p.flt && !unr.contains p.nh)
 
-/-- `q` beats `p` in a decision step before the router-id step (of the steps the observed
-    attributes can differ in): higher LOCAL_PREF, then eBGP over iBGP, then not
-    graceful-restart-stale over stale, then shorter CLUSTER_LIST. -/
+/-- `q` beats `p` in a decision step before the router-id step: not LLGR-stale over LLGR-stale,
+    then higher LOCAL_PREF, shorter AS_PATH, lower ORIGIN, eBGP over iBGP, not
+    graceful-restart-stale over stale, shorter CLUSTER_LIST. -/
 def beats (q p : PathObs) : Bool :=
-  if q.lp != p.lp then q.lp > p.lp
+  if q.llgr != p.llgr then p.llgr
+  else if q.lp != p.lp then q.lp > p.lp
+  else if q.asl != p.asl then q.asl < p.asl
+  else if q.org != p.org then q.org < p.org
   else if q.eb != p.eb then q.eb
   else if q.stale != p.stale then p.stale
   else q.cl < p.cl
@@ -129,9 +135,9 @@ def uses (rib : List DestObs) (a : Addr) : Nat :=
 
 -- ---------------------------------------------------------------- per-step clauses
 
-/-- main table: every IPv4/IPv6 prefix -/
-def checkMainPfx (unr : List Addr) (fib : Fib) (rib : List DestObs) (p : Pfx) : Option String :=
-  if p.isVpn then none
+/-- main table: every IPv4/IPv6 prefix (of a family that is not in restarting-speaker deferral) -/
+def checkMainPfx (dfr : List Nat) (unr : List Addr) (fib : Fib) (rib : List DestObs) (p : Pfx) : Option String :=
+  if p.isVpn || dfr.contains p.fam then none
   else
     let got := fibGet fib 0 p
     let want := (ecmp (eligible unr (ribGet rib p))).map (·.nh)
@@ -139,18 +145,31 @@ def checkMainPfx (unr : List Addr) (fib : Fib) (rib : List DestObs) (p : Pfx) : 
     else if !sameSet got want then some "fib-ne-ecmp"
     else none
 
-/-- VPN prefix `p` in VRF `v` (table id > 0) -/
-def checkVrfPfx (unr : List Addr) (fib : Fib) (rib : List DestObs) (v : Vrf) (p : Pfx) : Option String :=
-  if !p.isVpn || v.tid == 0 then none
+/-- VPN prefix `p` in VRF `v` (table id > 0): the entry is the ECMP set when the best path is
+    imported by the VRF, and absent otherwise (with several candidates for "the best path" that
+    disagree about the VRF, either). -/
+def checkVrfPfx (dfr : List Nat) (unr : List Addr) (fib : Fib) (rib : List DestObs) (v : Vrf) (p : Pfx) :
+    Option String :=
+  if !p.isVpn || v.tid == 0 || dfr.contains p.fam then none
   else
     let el := eligible unr (ribGet rib p)
     let got := fibGet fib v.tid p.local
-    if el.isEmpty then (if got.isEmpty then none else some "vrf-fib-not-withdrawn")
-    else if (bests el).all (rtMatch v) then
-      (if got.any (fun a => unr.contains a) then some "unreachable-nexthop-in-vrf-fib"
-       else if !sameSet got ((ecmp el).map (·.nh)) then some "vrf-fib-ne-ecmp"
-       else none)
-    else none
+    if got.any (fun a => unr.contains a) then some "unreachable-nexthop-in-vrf-fib"
+    else if el.isEmpty then (if got.isEmpty then none else some "vrf-fib-not-withdrawn")
+    else
+      let allM := (bests el).all (rtMatch v)
+      let anyM := (bests el).any (rtMatch v)
+      let isEcmp := sameSet got ((ecmp el).map (·.nh))
+      if allM then (if isEcmp then none else some "vrf-fib-ne-ecmp")
+      else if !anyM then (if got.isEmpty then none else some "vrf-stale-entry")
+      else (if isEcmp || got.isEmpty then none else some "vrf-fib-ne-ecmp")
+
+/-- a replayed request for a table other than the main one must be for a configured VRF table and
+    an IPv4/IPv6 prefix -/
+def checkCell (cfg : Cfg) (e : (Nat × Pfx) × List Addr) : Option String :=
+  if e.1.1 == 0 then none
+  else if cfg.vrfs.any (fun v => v.tid == e.1.1) && e.1.2.fam ≤ 1 then none
+  else some "fib-unexpected-cell"
 
 def checkRef (refs : Refs) (rib : List DestObs) (a : Addr) : Option String :=
   if refGet refs a = uses rib a then none else some "refcount-ne-uses"
@@ -161,19 +180,25 @@ def firstSome {α} (f : α → Option String) : List α → Option String
     | some s => some s
     | none => firstSome f xs
 
-/-- every prefix that is stored or has a replayed FIB entry -/
+/-- every prefix that is stored or has a replayed FIB entry (a VRF-local prefix stands for both VPN
+    families) -/
 def pfxsOf (fib : Fib) (rib : List DestObs) : List Pfx :=
-  rib.map (·.pfx) ++ fib.map (fun e => e.1.2) ++ fib.map (fun e => (⟨2, e.1.2.id⟩ : Pfx))
+  rib.map (·.pfx) ++ fib.map (fun e => e.1.2) ++ fib.map (fun e => (⟨2, e.1.2.id⟩ : Pfx)) ++
+    fib.map (fun e => (⟨3, e.1.2.id⟩ : Pfx))
 
 def addrsOf (refs : Refs) (rib : List DestObs) : List Addr :=
   refs.map (·.1) ++ rib.flatMap (fun d => d.paths.map (·.nh))
 
-def checkStep (cfg : Cfg) (unr : List Addr) (fib : Fib) (refs : Refs) (rib : List DestObs) : Option String :=
+def checkStep (cfg : Cfg) (dfr : List Nat) (unr : List Addr) (fib : Fib) (refs : Refs) (rib : List DestObs) :
+    Option String :=
   let ps := pfxsOf fib rib
-  match firstSome (checkMainPfx unr fib rib) ps with
+  match firstSome (checkCell cfg) fib with
   | some s => some s
   | none =>
-    match firstSome (fun v => firstSome (checkVrfPfx unr fib rib v) ps) cfg.vrfs with
+  match firstSome (checkMainPfx dfr unr fib rib) ps with
+  | some s => some s
+  | none =>
+    match firstSome (fun v => firstSome (checkVrfPfx dfr unr fib rib v) ps) cfg.vrfs with
     | some s => some s
     | none => firstSome (checkRef refs rib) (addrsOf refs rib)
 
@@ -183,22 +208,45 @@ def report (unr : List Addr) : Op → List Addr
   | .nh a false => a :: unr
   | _ => unr
 
-def checkFrom (cfg : Cfg) : Nat → Fib → Refs → List Addr → List Op → List StepObs → Verdict
-  | _, _, _, _, [], [] => .ok
-  | i, fib, refs, unr, op :: ops, s :: ss =>
+/-- families released from deferral are part of the history -/
+def undeferred (dfr : List Nat) : Op → List Nat
+  | .undefer f => dfr.filter (· != f)
+  | _ => dfr
+
+def checkFrom (cfg : Cfg) : Nat → List Nat → Fib → Refs → List Addr → List Op → List StepObs → Verdict
+  | _, _, _, _, _, [], [] => .ok
+  | i, dfr, fib, refs, unr, op :: ops, s :: ss =>
       let unr' := report unr op
+      let dfr' := undeferred dfr op
       let fib' := fibReplay fib s.fib
       match refReplay refs s.nht with
       | none => .fail i "unregister-without-registration"
       | some refs' =>
-        match checkStep cfg unr' fib' refs' s.rib with
+        match checkStep cfg dfr' unr' fib' refs' s.rib with
         | some c => .fail i c
-        | none => checkFrom cfg (i + 1) fib' refs' unr' ops ss
-  | i, _, _, _, _, _ => .fail i "trace-length-mismatch"
+        | none => checkFrom cfg (i + 1) dfr' fib' refs' unr' ops ss
+  | i, _, _, _, _, _, _ => .fail i "trace-length-mismatch"
 
 /-- The reference checker: case (configuration, history) and observation ↦ verdict. -/
 def check (cfg : Cfg) (ops : List Op) (obs : List StepObs) : Verdict :=
-  checkFrom cfg 0 [] [] [] ops obs
+  checkFrom cfg 0 cfg.defer [] [] [] ops obs
+
+/-- When the tracking requests of the whole history were fed, in the order sent, to the kernel
+    service: the count it ends with for every address is the number of peer-learned stored paths
+    using the address. -/
+def checkFeed (rib : List DestObs) (finals : List (Addr × Nat)) : Verdict :=
+  if finals.all (fun e => uses rib e.1 == e.2) then .ok else .fail 0 "service-watched-ne-uses"
+
+def lastRib (tr : List StepObs) : List DestObs :=
+  match tr.getLast? with
+  | some s => s.rib
+  | none => []
+
+/-- the reference checker with the optional service-feed observation -/
+def checkAll (cfg : Cfg) (ops : List Op) (tr : List StepObs) (feed : Option (List (Addr × Nat))) : Verdict :=
+  match check cfg ops tr, feed with
+  | .ok, some fs => checkFeed (lastRib tr) fs
+  | v, _ => v
 
 -- ---------------------------------------------------------------- service-loop refinement
 
@@ -217,6 +265,26 @@ def svcExpect : Refs → List (Bool × Addr) → List Bool × Refs
 /-- observation of a service run: emission per request and the measured final count per address -/
 def checkSvc (reqs : List (Bool × Addr)) (emits : List Bool) (finals : List (Addr × Nat)) : Verdict :=
   let (es, rf) := svcExpect [] reqs
+  if es != emits then .fail 0 "service-emission-ne-first-registration"
+  else if finals.all (fun e => refGet rf e.1 == e.2) then .ok
+  else .fail 0 "service-refcount-ne-fold"
+
+/-- the same with route events (`none`) in the sequence: while the kernel's answers do not change a
+    route event emits nothing -/
+def svcExpectE : Refs → List (Option (Bool × Addr)) → List Bool × Refs
+  | r, [] => ([], r)
+  | r, none :: rest =>
+      let (es, rf) := svcExpectE r rest
+      (false :: es, rf)
+  | r, some (true, a) :: rest =>
+      let (es, rf) := svcExpectE (refSet r a (refGet r a + 1)) rest
+      ((refGet r a == 0) :: es, rf)
+  | r, some (false, a) :: rest =>
+      let (es, rf) := svcExpectE (refSet r a (refGet r a - 1)) rest
+      (false :: es, rf)
+
+def checkSvcE (reqs : List (Option (Bool × Addr))) (emits : List Bool) (finals : List (Addr × Nat)) : Verdict :=
+  let (es, rf) := svcExpectE [] reqs
   if es != emits then .fail 0 "service-emission-ne-first-registration"
   else if finals.all (fun e => refGet rf e.1 == e.2) then .ok
   else .fail 0 "service-refcount-ne-fold"
